@@ -104,7 +104,7 @@ def check(ctx):
         if ncfg and ncfg[0]:
             p = nodep[0].value if nodep else None
             ok = (p is not None and len(fin) == 1 and fin[0].args == (("a", p, "write"),) and any(pmatch("ConnectTrans.create(Q_a, Q_b)", s.value) == {"a": ("a", p, "read"), "b": sb.owner} for s in ex.of(Submodule))
-                  and any(pmatch("Q_l.append(Q_x)", e.call) and pmatch("Q_l.append(Q_x)", e.call)["x"] == ("a", p, "clear") for e in ex.of(Effect)))
+                  and any(pmatch("Q_l.append(Q_x)", e.call) and pmatch("Q_l.append(Q_x)", e.call)["x"] == ("a", p, "clear") and pmatch("Q_l.append(Q_x)", e.call)["l"] == _clear_src(ex, comp) for e in ex.of(Effect)))
             ctx.check(ok, "C28.no-dependency-node", sb.site, f"PipelineBuilder.nodep[{cn}]", found=f"pipe={'yes' if p else 'no'}, finalize={[tstr(a) for c in fin for a in c.args]}", required="no_dependency: node -> Pipe.write; Pipe.read -> stage method by a ConnectTrans; the pipe's clear is collected")
         elif ncfg:
             ok = len(fin) == 1 and fin[0].args == (sb.owner,) and fin[0].callee == ("a", ("a", ("i", pat("self._nodes"), i), "node"), "finalize")
@@ -126,7 +126,7 @@ def check(ctx):
         pw = [r for r in prov if r.args == (("a", fwd, "write"),)]
         pr = [r for r in prov if r.args == (("a", fwd, "read"),)]
         ok = ok and len(pw) == 1 and len(pr) == 1 and pw[0].subject[0] == "i" and pw[0].subject[1] == writes and lin_equal(pw[0].subject[2], ("op", "-", j, ("c", 1))) and pr[0].subject == ("i", reads, j)
-        okc = any(pmatch("Q_l.append(Q_x)", e.call) and pmatch("Q_l.append(Q_x)", e.call)["x"] == ("a", fwd, "clear") and [fr for fr in e.frames if fr[0] == "for"] == fl for e in ex.of(Effect))
+        okc = any(pmatch("Q_l.append(Q_x)", e.call) and pmatch("Q_l.append(Q_x)", e.call)["x"] == ("a", fwd, "clear") and pmatch("Q_l.append(Q_x)", e.call)["l"] == _clear_src(ex, comp) and [fr for fr in e.frames if fr[0] == "for"] == fl for e in ex.of(Effect))
         ctx.check(okc, "C28.connector-clear-collected", s.site, "PipelineBuilder.connector.clear", found="clear of every connector appended" if okc else "missing", required="every connector's clear is collected for the pipeline clear")
     ctx.check(ok, "C28.connectors", fwdsub[0].site if fwdsub else comp.site, "PipelineBuilder.connector", found="; ".join(f"{tstr(r.subject)}.provide({tstr(r.args[0])})" for r in prov),
               required="connector i (1 <= i < n): write_methods[i-1] provided by its write, read_methods[i] by its read, layout of write_methods[i-1]")
@@ -160,6 +160,17 @@ def _expand(ex, t, depth=3):
             break
         t = t2
     return t
+
+
+def _clear_src(ex, comp):
+    """The list the `clear` method iterates over (the clears that are actually called)."""
+    cb = [bd for bd in ex.of(BodyDef) if bd.owner == pat("self.clear")]
+    if not cb:
+        return None
+    cc = calls_in_body(ex, cb[0])
+    if len(cc) == 1 and cc[0].callee[0] == "b":
+        return cc[0].callee[2]
+    return None
 
 
 def _liveness(ctx):
